@@ -17,7 +17,7 @@ RULE = ("Hypothesis-generated genomes with every splice-site class (canonical fo
         "soft-masked (lower-case) segments, reads with polyA/polyT of either orientation; --check_canonical, all "
         "--report_canonical levels; each scenario is run on the full read set and on a random subset (history "
         "dimension). Non-trivial = >=2 reported reads share an intron and carry different strands; distinct by "
-        "scenario hash.")
+        "scenario hash. A third of the annotations carry Canonical attributes of their own (True / False / mixed).")
 ASSUMPTIONS = ["rows with strand '.' have no reported strand: their Canonical value is only compared between runs",
                "model strand oracle: strict majority of FASTA-implied intron strands; introns annotated on a strand "
                "that conflicts with the FASTA are UNSPECIFIED"]
